@@ -231,6 +231,117 @@
                 Q - cmul(cs, sk.t_0_hat_mont[k].0)[n],
                 sgn_w(a, ys, k)[n] - cmul(cs, sk.s_2_hat_mont[k].0)[n] + cmul(cs, sk.t_0_hat_mont[k].0)[n]) { 1int } else { 0int })
     }
+    // ---- Tier 2: the private key struct holds NTT(s1), NTT(s2), NTT(t0) in Montgomery form, for in-range s1, s2, t0 (struct invariant of
+    // every key that key generation or deserialisation returns); the coefficient vectors are recovered exactly by into_bytes
+    pub open spec fn vec_in(s: Seq<Seq<int>>, cnt: int, lo: int, hi: int) -> bool {
+        &&& s.len() == cnt
+        &&& forall|i: int| 0 <= i < cnt ==> (#[trigger] s[i]).len() == 256
+        &&& forall|i: int, n: int| 0 <= i < cnt && 0 <= n < 256 ==> lo <= #[trigger] s[i][n] <= hi
+    }
+    pub open spec fn vec_mont_of<const N: usize>(v: [T; N], s: Seq<Seq<int>>) -> bool {
+        forall|i: int, n: int| 0 <= i < N && 0 <= n < 256 ==> mont_of(#[trigger] v[i].0[n] as int, spec_ntt(s[i])[n])
+    }
+    pub open spec fn sk_coefs_ok<const K: usize, const L: usize>(sk: PrivateKey<K, L>, eta: int, s1: Seq<Seq<int>>, s2: Seq<Seq<int>>, t0: Seq<Seq<int>>) -> bool {
+        &&& vec_in(s1, L as int, -eta, eta) && vec_in(s2, K as int, -eta, eta) && vec_in(t0, K as int, -4095, 4096)
+        &&& vec_mont_of(sk.s_1_hat_mont, s1) && vec_mont_of(sk.s_2_hat_mont, s2) && vec_mont_of(sk.t_0_hat_mont, t0)
+    }
+    pub open spec fn sk_valid<const K: usize, const L: usize>(sk: PrivateKey<K, L>, eta: int) -> bool {
+        exists|s1: Seq<Seq<int>>, s2: Seq<Seq<int>>, t0: Seq<Seq<int>>| #[trigger] sk_coefs_ok(sk, eta, s1, s2, t0)
+    }
+    // the coefficient vectors encoded in a private-key byte string (Algorithm 25 skDecode)
+    pub open spec fn sk_s1_vec(sk: Seq<u8>, eta: int, l: int) -> Seq<Seq<int>> {
+        Seq::new(l as nat, |i: int| Seq::new(256, |j: int| spec_unpack_coef(sk_s1_bytes(sk, eta, i), eta, eta, j)))
+    }
+    pub open spec fn sk_s2_vec(sk: Seq<u8>, eta: int, k: int, l: int) -> Seq<Seq<int>> {
+        Seq::new(k as nat, |i: int| Seq::new(256, |j: int| spec_unpack_coef(sk_s2_bytes(sk, eta, l, i), eta, eta, j)))
+    }
+    pub open spec fn sk_t0_vec(sk: Seq<u8>, eta: int, k: int, l: int) -> Seq<Seq<int>> {
+        Seq::new(k as nat, |i: int| Seq::new(256, |j: int| spec_unpack_coef(sk_t0_bytes(sk, eta, k, l, i), 4095, 4096, j)))
+    }
+    pub open spec fn sk_vecs_are(b: Seq<u8>, eta: int, k: int, l: int, s1: Seq<Seq<int>>, s2: Seq<Seq<int>>, t0: Seq<Seq<int>>) -> bool {
+        &&& forall|i: int, j: int| 0 <= i < l && 0 <= j < 256 ==> #[trigger] field(sk_s1_bytes(b, eta, i), spec_bitlen(2 * eta), j) == eta - s1[i][j]
+        &&& forall|i: int, j: int| 0 <= i < k && 0 <= j < 256 ==> #[trigger] field(sk_s2_bytes(b, eta, l, i), spec_bitlen(2 * eta), j) == eta - s2[i][j]
+        &&& forall|i: int, j: int| 0 <= i < k && 0 <= j < 256 ==> #[trigger] field(sk_t0_bytes(b, eta, k, l, i), 13, j) == 4096 - t0[i][j]
+    }
+    // two small vectors with the same stored NTT image are equal (the NTT is injective on residues, and the ranges are narrower than q)
+    pub proof fn lemma_vec_mont_unique<const N: usize>(v: [T; N], a: Seq<Seq<int>>, b: Seq<Seq<int>>, lo: int, hi: int)
+        requires vec_in(a, N as int, lo, hi), vec_in(b, N as int, lo, hi), -4_190_208 <= lo, hi <= 4_190_208, vec_mont_of(v, a), vec_mont_of(v, b),
+        ensures forall|i: int, n: int| 0 <= i < N && 0 <= n < 256 ==> #[trigger] a[i][n] == b[i][n],
+    {
+        assert forall|i: int, n: int| 0 <= i < N && 0 <= n < 256 implies #[trigger] a[i][n] == b[i][n] by {
+            assert(a[i].len() == 256 && b[i].len() == 256);
+            let na = spec_ntt(a[i]); let nb = spec_ntt(b[i]);
+            lemma_spec_ntt_len(a[i]); lemma_spec_ntt_len(b[i]);
+            assert forall|m: int| 0 <= m < 256 implies cong(#[trigger] na[m], nb[m]) by {
+                let x = v[i].0[m] as int;
+                assert(mont_of(x, na[m]) && mont_of(x, nb[m]));
+                lemma_cong_sym(x, na[m] * 4_294_967_296);
+                lemma_cong_trans(na[m] * 4_294_967_296, x, nb[m] * 4_294_967_296);
+                lemma_cong_cancel_r32(na[m], nb[m]);
+            }
+            lemma_invntt_cong(na, nb);
+            lemma_invntt_ntt(a[i]); lemma_invntt_ntt(b[i]);
+            assert(spec_invntt(na)[n] == a[i][n] % (Q as int));
+            assert(spec_invntt(nb)[n] == b[i][n] % (Q as int));
+            assert(lo <= a[i][n] <= hi && lo <= b[i][n] <= hi);
+            let x = a[i][n]; let y = b[i][n];
+            if x < 0 { assert((x + Q) % (Q as int) == x + Q); assert(x % (Q as int) == x + Q); }
+            if y < 0 { assert((y + Q) % (Q as int) == y + Q); assert(y % (Q as int) == y + Q); }
+        }
+    }
+    pub proof fn lemma_sk_coefs_unique<const K: usize, const L: usize>(sk: PrivateKey<K, L>, eta: int, a1: Seq<Seq<int>>, a2: Seq<Seq<int>>, a0: Seq<Seq<int>>,
+            b1: Seq<Seq<int>>, b2: Seq<Seq<int>>, b0: Seq<Seq<int>>)
+        requires eta_ok(eta), sk_coefs_ok(sk, eta, a1, a2, a0), sk_coefs_ok(sk, eta, b1, b2, b0),
+        ensures forall|i: int, n: int| 0 <= i < L && 0 <= n < 256 ==> #[trigger] a1[i][n] == b1[i][n],
+            forall|i: int, n: int| 0 <= i < K && 0 <= n < 256 ==> #[trigger] a2[i][n] == b2[i][n],
+            forall|i: int, n: int| 0 <= i < K && 0 <= n < 256 ==> #[trigger] a0[i][n] == b0[i][n],
+    {
+        lemma_vec_mont_unique(sk.s_1_hat_mont, a1, b1, -eta, eta);
+        lemma_vec_mont_unique(sk.s_2_hat_mont, a2, b2, -eta, eta);
+        lemma_vec_mont_unique(sk.t_0_hat_mont, a0, b0, -4095, 4096);
+    }
+    // NTT^-1 of (c times) NTT(w), given only up to congruence, is c*w reduced into [0, q)
+    pub proof fn lemma_invntt_scaled(y: Seq<int>, c: int, w: Seq<int>)
+        requires w.len() == 256, y.len() == 256, forall|i: int| 0 <= i < 256 ==> cong(#[trigger] y[i], c * spec_ntt(w)[i]),
+        ensures forall|i: int| 0 <= i < 256 ==> #[trigger] spec_invntt(y)[i] == (c * w[i]) % (Q as int),
+    {
+        reveal(spec_ntt); reveal(spec_invntt);
+        lemma_ntt_prefix(w, 8);
+        assert(spec_ntt(w) == ntt_prefix(w, 8));
+        lemma_rt_layers(y, c, w, 0);
+        let v = intt_layers(y, 0);
+        assert(pw2(8) == 256) by (compute_only);
+        assert forall|i: int| 0 <= i < 256 implies #[trigger] spec_invntt(y)[i] == (c * w[i]) % (Q as int) by {
+            let cw = c * w[i];
+            assert(cong(v[i], pw2(8) * c * w[i]));
+            assert(pw2(8) * c * w[i] == 256 * cw) by (nonlinear_arith) requires pw2(8) == 256, cw == c * w[i];
+            lemma_cong_refl(8_347_681);
+            lemma_cong_mul(8_347_681, 8_347_681, v[i], 256 * cw);
+            assert(8_347_681 * (256 * cw) - cw == (255 * cw) * (Q as int)) by (nonlinear_arith);
+            lemma_cong_from(8_347_681 * (256 * cw), cw, 255 * cw);
+            lemma_cong_trans(8_347_681 * v[i], 8_347_681 * (256 * cw), cw);
+            lemma_cong_same_mod(8_347_681 * v[i], cw);
+        }
+    }
+    pub proof fn lemma_spec_ntt_len(w: Seq<int>)
+        requires w.len() == 256,
+        ensures spec_ntt(w).len() == 256,
+    { reveal(spec_ntt); lemma_ntt_prefix(w, 8); }
+    // a Montgomery-reduced stored coefficient is congruent to the NTT coefficient it stores
+    pub proof fn lemma_unmont(e: int, x: int, s: int)
+        requires mont_rel(e, x), mont_of(x, s),
+        ensures cong(e, s),
+    {
+        lemma_cong_trans(e * 4_294_967_296, x, s * 4_294_967_296);
+        lemma_cong_cancel_r32(e, s);
+    }
+    // centred representative of a small value recovered mod q
+    pub proof fn lemma_center_small(v: int, s: int)
+        requires v == s % (Q as int), -4_190_208 <= s <= 4_190_208,
+        ensures (if v > (Q as int) / 2 { v - Q } else { v }) == s,
+    {
+        if s < 0 { assert((s + Q) % (Q as int) == s + Q); assert(s % (Q as int) == s + Q); }
+    }
     // res is the infinity norm (of the centred representatives) of the vector w
     pub open spec fn inf_norm_is<const ROW: usize>(w: [R; ROW], res: i32) -> bool {
         &&& forall|x: int, n: int| 0 <= x < ROW && 0 <= n < 256 ==> spec_abs(mod_pm(#[trigger] w[x].0[n] as int, Q as int)) <= res
